@@ -317,10 +317,11 @@ def run_level1(ck, pid):
     if not okm:
         ck.obligation("model/IngestCases.v compiles", False, out[-1500:])
         return None
-    n = ck.n(320, 6000)
+    n = ck.n(256, 6000)
     procs = 8 if ck.quick() else 16
     cases = load_corpus(ck, "ingest", pid, "scripts.jsonl", 90000000)
-    ok, gen, tail = run_harness_parallel(ck, "ingest", n, procs, ck.seed)
+    # quick tier: the same classes, smaller volume (large requests of 2000..3500 rows instead of 2000..11000)
+    ok, gen, tail = run_harness_parallel(ck, "ingest", n, procs, ck.seed, extra=(["--largespan", "1500"] if ck.quick() else []))
     if not ok:
         ck.obligation("harness ingest ran", False, tail)
         return None
@@ -360,7 +361,7 @@ def coverage_level1(ck, res):
     ck.coverage["distinct_nontrivial"] += len(distinct)
     ck.coverage["rule"] += ("service scripts: 1..3 real insert services (kinds uniformly among the six), maxQueueSize off/within reach/huge, "
                             "4..14 generated operations (Request 50%, PlanFlush, return of the blocked Do with success 2/3, Stop) followed by a drain; "
-                            "requests of 0, 1, 2..6 or 2000..11000 rows; one script in five draws a third of its requests from the malformed stream "
+                            "requests of 0, 1, 2..6 or 2000..11000 rows (quick tier: 2000..3500); one script in five draws a third of its requests from the malformed stream "
                             "(a column longer/shorter/empty, empty key column, foreign row, size 0); one in forty has a refused connection. "
                             "non-trivial = at least two requests with rows, a block sent and a Do returned; distinct by content. ")
     ck.extra.setdefault("input_distribution", {}).update({"script_classes": hist, "service_kinds": kinds, "operation_kinds": opk,
@@ -562,7 +563,7 @@ def eval_cases2(ck, name, cases):
 
 
 def run_level2(ck, pid):
-    n = ck.n(160, 3000)
+    n = ck.n(144, 3000)
     procs = 8 if ck.quick() else 16
     cases = load_corpus(ck, "ingest", pid, "http.jsonl", 80000000, extra=["--level", "2"])
     ok, gen, tail = run_harness_parallel(ck, "ingest", n, procs, ck.seed + 7, extra=["--level", "2"], tag="l2")
